@@ -87,6 +87,11 @@ def gen_cases(tier, seed):
                     for op in OPS + ["/"]:
                         for t in TYPES:
                             cases.append({"kind": "arith", "ta": ta, "a": a, "tb": tb, "b": b, "op": op, "tt": t, "form": rng.choice(["plain", "paren"])})
+    # exact quotients that lie within 0.0001 of a whole number without being one
+    for ta in TYPES:
+        for a, b in ((1, 16384), (32767, 32768), (-1, 32768), (65537, 65536), (3, 32768)):
+            for t in TYPES:
+                cases.append({"kind": "arith", "ta": ta, "a": a if ta != "%" or abs(a) <= 32767 else 1, "tb": "&", "b": b, "op": "/", "tt": t, "form": rng.choice(["plain", "paren"])})
     for tt in TYPES:
         for what, n in (("len_long", 16383), ("len_long", 16384), ("len_long", 32767), ("instr_long", 16383), ("instr_long", 20000), ("val_int", 400), ("val_int", 320), ("val_frac", 400)):
             cases.append({"kind": "special", "what": what, "n": n, "tt": tt})
